@@ -315,5 +315,43 @@ PROPS["C25"] = dict(
                  "on a dummy proof carrying the context (number of committed polynomials = width + blowup as documented there)",
                  "documented collision resistance: Blake3_256/Sha3_256/Rp64_256/RpJive64_256 128, Blake3_192 96, Rp62_248 124"],
     floor=500,
-    stages=[Stage("c25", variant="rel"), Stage("c25", variant="chk", args=["--n", "500"])],
+    stages=[Stage("c25", variant="rel"), Stage("c25", variant="chk", args=["--n", "500", "--sweeps", "2", "--vcases", "100"])],
+)
+
+PROPS["C08"] = dict(
+    level="exploration",
+    rule="random realisable FRI geometries (degree bound + 1 = 2^1..2^10 (thorough 2^13), blowup 2..128, folding 2/4/8/16, "
+         "remainder degree 2^k-1 <= 255, domain <= 2^17) x 12 field / extension / hasher instantiations x polynomial degree "
+         "{0, 1, bound/2, exactly bound, random} x query positions (drawn 1..255 with random nonce, one position repeated, "
+         "positions folding onto each other, sorted / reversed multisets with duplicates, domain edges): prover + verifier "
+         "on the proof object, FriProof round trip (equal, byte-identical), verifier on the decoded proof; "
+         "distinct = (instantiation, geometry, degree class, position mode)",
+    assumptions=["geometries are restricted to the realisability predicate of DESIGN.md C08 (every layer has >= 2 rows and the "
+                 "degree bound is divisible by the folding factor at every fold); outside it the prover itself refuses",
+                 "remainder degrees above 255 are not generated (the STARK options cap it at 255; the u16 remainder length field "
+                 "of the proof encoding cannot hold more than 65535 bytes)"],
+    floor=300,
+    stages=[Stage("c08", variant="rel", kind="sharded", n=(3000, 60000), timeout=(600, 3600)),
+            Stage("c08", variant="chk", kind="sharded", n=(800, 8000), timeout=(600, 3600)),
+            Stage("c08", variant="par", kind="sharded", n=(600, 6000), timeout=(600, 3600), threads=3, args=["--maxlogd", "12"])],
+)
+
+PROPS["C09"] = dict(
+    level="fault_enumeration",
+    rule="per case one random realisable FRI geometry x 12 instantiations x 1..255 drawn queries: (a) random functions and "
+         "polynomials of degree bound+1..4(bound+1)-1 with uniform coefficients through the honest prover must be rejected; "
+         "(b) every understated bound in {bound-1, bound-8, bound/2, (bound+1)/2-1, (bound+1)/folding-1, 1, 0} must be "
+         "rejected; (c) at EVERY layer of an honest proof: one value changed, two rows swapped, one row crafted to keep "
+         "its fold at alpha; remainder coefficient changed, remainder crafted as R + c*prod(x-x_i) over all queried final "
+         "points, remainder with leading zeros trimmed; each crafted forgery is first validated (accepted when only the "
+         "targeted commitment check is switched off by the failpoint hook, else inconclusive) and then must be rejected; "
+         "(d) changed / swapped / dropped / extra commitments and a changed claimed evaluation; evaluation = one verification "
+         "of forged data; distinct = (instantiation, geometry, queries)",
+    assumptions=["non-low-degree inputs use uniformly random coefficients / values, so the folded high-degree part evaluated at a "
+                 "queried point is uniform: acceptance has probability <= 1/|F| <= 2^-62 and is never a legitimate chance event",
+                 "panics of the standalone FRI verifier on structurally malformed transcripts (wrong number of commitments, bound "
+                 "implying a smaller domain) are counted but not judged here; panic-freedom is C05's subject"],
+    floor=100,
+    stages=[Stage("c09", variant="rel", kind="sharded", n=(1200, 30000), timeout=(600, 3600)),
+            Stage("c09", variant="chk", kind="sharded", n=(300, 3000), timeout=(600, 3600))],
 )
